@@ -13,12 +13,12 @@ import (
 )
 
 type rateCfg struct {
-	tick   time.Duration
-	tps    int
-	rates  []M // p (ticks), a, b
-	cap    int
-	level  string
-	extr   string
+	tick  time.Duration
+	tps   int
+	rates []M // p (ticks), a, b
+	cap   int
+	level string
+	extr  string
 }
 
 func parseRateCfg(c M) rateCfg {
@@ -46,7 +46,9 @@ func (rc rateCfg) rateSet() *ratelimit.RateSet {
 
 // flat step of a concretised timeline
 type rstep struct {
-	adv     int // ticks (if > 0 this is an advance)
+	adv     int           // ticks (if > 0 this is an advance)
+	sub     time.Duration // silent sub-tick advance (only after an advertised delay that is not a whole number of ticks)
+	less    time.Duration // the real advance of this step is shorter by this much (realigns the clock after sub)
 	src     string
 	n       int
 	isretry bool
@@ -56,6 +58,7 @@ type rstep struct {
 
 type rout struct {
 	out     string
+	exact   time.Duration // advertised delay as returned
 	delay   int
 	status  int
 	invoked int
@@ -66,10 +69,11 @@ type rout struct {
 
 // rateSubject wraps either a TokenLimiter (http) or a bare TokenBucketSet (set).
 type rateSubject struct {
-	rc      rateCfg
-	tl      *ratelimit.TokenLimiter
-	set     *ratelimit.TokenBucketSet
-	invoked int
+	rc         rateCfg
+	tl         *ratelimit.TokenLimiter
+	set        *ratelimit.TokenBucketSet
+	invoked    int
+	fracDelays int
 }
 
 func newRateSubject(rc rateCfg) *rateSubject {
@@ -124,7 +128,12 @@ func (s *rateSubject) tokens() []int64 {
 
 func (s *rateSubject) toTicks(d time.Duration) int {
 	if d%s.rc.tick != 0 {
-		fatal("delay %v is not a whole number of ticks (%v): scenario generator must keep period/average whole", d, s.rc.tick)
+		// generated rates keep period/average whole, so the model never produces such a delay: report it rounded up (waiting
+		// for the rounded delay is waiting at least as long as advertised) and let the trace specification judge it
+		s.fracDelays++
+		if d > 0 {
+			return int(d/s.rc.tick) + 1
+		}
 	}
 	return int(d / s.rc.tick)
 }
@@ -138,7 +147,7 @@ func (s *rateSubject) request(src string, n int) rout {
 		case err != nil:
 			o.out = "error"
 		case d > 0:
-			o.out, o.delay = "limit", s.toTicks(d)
+			o.out, o.delay, o.exact = "limit", s.toTicks(d), d
 		default:
 			o.out, o.delay = "ok", 0
 		}
@@ -162,7 +171,7 @@ func (s *rateSubject) request(src string, n int) rout {
 			if err != nil {
 				fatal("X-Retry-In %q: %v", v, err)
 			}
-			o.delay = s.toTicks(d)
+			o.delay, o.exact = s.toTicks(d), d
 		}
 	default:
 		o.out = "error"
@@ -183,8 +192,12 @@ func replayFlat(rc rateCfg, flat []rstep, keep func(i int, st rstep) bool, forge
 		if forget[i] {
 			s = newRateSubject(rc)
 		}
+		if st.sub > 0 {
+			advance(st.sub)
+			continue
+		}
 		if st.adv > 0 {
-			advance(time.Duration(st.adv) * rc.tick)
+			advance(time.Duration(st.adv)*rc.tick - st.less)
 			continue
 		}
 		if st.src == "" || !keep(i, st) {
@@ -245,8 +258,14 @@ func runRate(sc Scenario, tr *Trace, seed int64) {
 	lastRej := map[string]rout{}
 	lastRejN := map[string]int{}
 	do := func(st rstep) {
+		if st.sub > 0 {
+			advance(st.sub)
+			flat = append(flat, st)
+			outs = append(outs, rout{})
+			return
+		}
 		if st.adv > 0 {
-			advance(time.Duration(st.adv) * rc.tick)
+			advance(time.Duration(st.adv)*rc.tick - st.less)
 			flat = append(flat, st)
 			outs = append(outs, rout{})
 			return
@@ -275,8 +294,20 @@ func runRate(sc Scenario, tr *Trace, seed int64) {
 			src := str(st, "src")
 			if o, ok := lastRej[src]; ok && o.delay > 0 {
 				n := lastRejN[src]
-				do(rstep{adv: o.delay})
-				do(rstep{src: src, n: n, isretry: true})
+				if o.exact > 0 && o.exact%rc.tick != 0 {
+					// wait exactly as long as advertised: whole ticks, then the sub-tick rest silently (the model's clock
+					// shows the whole ticks: refill is a step function of whole ticks for generated rates), retry, realign
+					rest := o.exact % rc.tick
+					if o.delay > 1 {
+						do(rstep{adv: o.delay - 1})
+					}
+					do(rstep{sub: rest})
+					do(rstep{src: src, n: n, isretry: true})
+					do(rstep{adv: 1, less: rest})
+				} else {
+					do(rstep{adv: o.delay})
+					do(rstep{src: src, n: n, isretry: true})
+				}
 			}
 		case "idle": // stay idle for burst*timePerToken of every rate, then ask for the smallest burst
 			src := str(st, "src")
@@ -332,6 +363,9 @@ func runRate(sc Scenario, tr *Trace, seed int64) {
 		if st.adv > 0 {
 			now += st.adv
 			tr.Emit(M{"e": "Adv", "d": st.adv, "t": now})
+			continue
+		}
+		if st.sub > 0 {
 			continue
 		}
 		o := outs[i]
